@@ -97,3 +97,50 @@ fn k_io_read_xys_and_parts() {
     let q = q.unwrap();
     assert!(q.len() == 2 && q[0] == p[0] && q[1] == p[1]);
 }
+
+/// a source that hands out at most 3 bytes per `read` call (C13 short-read clause)
+struct Dribble<'a> {
+    buf: &'a [u8],
+    pos: usize,
+}
+impl std::io::Read for Dribble<'_> {
+    fn read(&mut self, out: &mut [u8]) -> std::io::Result<usize> {
+        let avail = self.buf.len() - self.pos;
+        let mut n = if out.len() < avail { out.len() } else { avail };
+        if n > 3 {
+            n = 3;
+        }
+        let mut i = 0;
+        while i < n {
+            out[i] = self.buf[self.pos + i];
+            i += 1;
+        }
+        self.pos += n;
+        Ok(n)
+    }
+}
+
+/// the XY array reader gives the same points from a source that returns 3 bytes per call, and an error (never
+/// zero-filled vertices) when the data stops inside the array
+#[kani::proof]
+#[kani::unwind(14)]
+fn k_io_read_xys_short_reads_and_truncation() {
+    let v: [u64; 4] = kani::any();
+    let mut buf = [0u8; 32];
+    let mut i = 0;
+    while i < 4 {
+        put_f64(&mut buf, 8 * i, v[i]);
+        i += 1;
+    }
+    let mut d = Dribble { buf: &buf[..], pos: 0 };
+    let r = read_xy_in_vec_of::<Point, _>(&mut d, 2);
+    assert!(r.is_ok());
+    let pts = r.unwrap();
+    assert!(pts.len() == 2 && pts[0].x.to_bits() == v[0] && pts[0].y.to_bits() == v[1] && pts[1].x.to_bits() == v[2] && pts[1].y.to_bits() == v[3]);
+    let cut: usize = kani::any();
+    kani::assume(cut < 32);
+    let mut s: &[u8] = &buf[..cut];
+    let r2 = read_xy_in_vec_of::<Point, _>(&mut s, 2);
+    assert!(r2.is_err());
+    std::mem::forget(r2);
+}
